@@ -371,6 +371,6 @@ def cosim(ctx, native):
             raise RuntimeError("MIR interpreter %r vs native %r on %r" % (mine, obs, s))
         exp = expected_conc(s)
         if (obs if obs[0] == "OK" else ("ERR",)) != exp:
-            raise RuntimeError("reference evaluator %r vs native %r on %r" % (exp, obs, s))
+            raise NativeViolation("5 from_str %s" % s.encode().hex(), obs, exp)
         n += 1
     return n
